@@ -344,8 +344,31 @@ func (e *extractor) ifStmt(v *ast.IfStmt) error {
 	// if c.isClient { err := c.BuildHandshakeState(); if err != nil { return err } }
 	ev := e.scan(v)
 	if ev.build {
-		if ev.lockOp || ev.bodyCall || ev.errAccess || ev.store || ev.goStmt || ev.deferStmt {
+		if ev.lockOp || ev.bodyCall || ev.store || ev.goStmt || ev.deferStmt {
 			return e.errf(v, "BuildHandshakeState block touches more than the build")
+		}
+		if ev.errAccess {
+			// the QUIC-only error path (`if c.quic != nil { c.handshakeErr = ..; close(..) }`, the D15
+			// repair) records the error before returning: an access of handshakeErr on the build path.
+			// The model assumes c.quic == nil; the access itself is still subject to the discipline.
+			if !e.errAccessOnlyUnderQuic(v) {
+				return e.errf(v, "BuildHandshakeState block touches handshakeErr outside a QUIC-only block")
+			}
+			// With c.quic == nil (the model's assumption) the block is a no-op, so no statement is
+			// emitted; that the access happens under handshakeMutex is checked here instead: the
+			// mutex must have been locked (with a deferred unlock) earlier in the function.
+			var locked, deferred bool
+			for _, st := range e.out {
+				if st.Kind == "lock:hs" {
+					locked = true
+				}
+				if st.Kind == "deferUnlock:hs" {
+					deferred = true
+				}
+			}
+			if !locked || !deferred {
+				return e.errf(v, "QUIC-only handshakeErr store on the build path is not under handshakeMutex")
+			}
 		}
 		if !ev.ret {
 			return e.errf(v, "BuildHandshakeState error is not returned")
@@ -366,6 +389,34 @@ func (e *extractor) ifStmt(v *ast.IfStmt) error {
 		e.emit("retUnk", v)
 	}
 	return nil
+}
+
+// errAccessOnlyUnderQuic reports whether every access of handshakeErr below n sits inside an
+// `if c.quic != nil { .. }` block.
+func (e *extractor) errAccessOnlyUnderQuic(n ast.Node) bool {
+	ok := true
+	ast.Inspect(n, func(x ast.Node) bool {
+		switch v := x.(type) {
+		case *ast.IfStmt:
+			if b, isBin := v.Cond.(*ast.BinaryExpr); isBin && v.Init == nil && b.Op == token.NEQ && e.recvField(b.X, "quic") && isIdent(b.Y, "nil") {
+				if v.Else != nil {
+					ast.Inspect(v.Else, func(y ast.Node) bool {
+						if sel, isSel := y.(*ast.SelectorExpr); isSel && e.recvField(sel, "handshakeErr") {
+							ok = false
+						}
+						return true
+					})
+				}
+				return false
+			}
+		case *ast.SelectorExpr:
+			if e.recvField(v, "handshakeErr") {
+				ok = false
+			}
+		}
+		return true
+	})
+	return ok
 }
 
 // isCtxDoneCond recognises `<x>.Done() != nil`.
